@@ -131,7 +131,9 @@ def bitlevel_setup(m, spec):
 TDES = ('des::tdes::TdesEde3', 'des::tdes::TdesEee3', 'des::tdes::TdesEde2', 'des::tdes::TdesEee2')
 
 
-def expected_undecided(tyname):
+def expected_undecided(tyname, cfgflags=()):
+    if tyname.startswith('kuznyechik::') and any('compact_soft' in c for c in cfgflags):
+        return False      # one key array serves both directions: the word-level engine closes the proof
     return any(tyname == a or tyname.startswith(a + '::') or tyname.startswith(a + '<') for a in EXPECTED_UNDECIDED_ADTS)
 
 
@@ -282,7 +284,7 @@ def run(chk, facts_by_config):
                                                       engine='bit-level (GF(2)-affine normal form + S-box lemmas)' if o.get('bitlevel') else 'word-level terms',
                                                       lemmas=o.get('lemmas')) if o['first'] == 'enc' else None)
                 proved.setdefault(cfgname, set()).add(tyname)
-            elif o['ok'] is None or expected_undecided(tyname):
+            elif o['ok'] is None or expected_undecided(tyname, facts_by_config[cfgname].meta['cfg']['cfg']):
                 if not any(u.startswith(tyname + ': ') for u in chk.undecided):
                     chk.undecided.append('%s: %s' % (tyname, 'backend type differs from the cipher type (inverse keys are separate data)'
                                                      if o['ok'] is None else 'inverse relies on algebra outside the rewrite system'))
